@@ -582,7 +582,8 @@ func geomCase(k *run.K) {
 		judgeRects(k, g, h)
 	}
 	// representation independence: reversed and force-oriented inputs give the same hull
-	for name, v := range map[string]geom.Geometry{"Reverse": g.Reverse(), "ForceCW": g.ForceCW(), "ForceCCW": g.ForceCCW()} {
+	for name, v := range map[string]geom.Geometry{"Reverse": g.Reverse(), "ForceCW": g.ForceCW(), "ForceCCW": g.ForceCCW(),
+		"independent Z/M at every control point": shared.Payload(k.Rng, g, shared.PayloadCT(k.Rng))} {
 		var h2 geom.Geometry
 		if !k.Lib("nopanic", func() { h2 = v.ConvexHull() }) {
 			k.Check("hull-perm", vertexSet(h2) == vertexSet(h) && h2.IsCCW() == h.IsCCW(), "hull changes under %s of the input: %s vs %s", name, h2.AsText(), h.AsText())
